@@ -27,10 +27,12 @@
      * U's minus sign (not_truncated), VOL's NO keyword, matrix fills (a cell with a transform on FILL is the
        only "complex" fill), Importance.all / Cells.set_equal_importance, values' numeric formatting (values are
        opaque integers);
-     * that Importance._format_tree edits the classifiers in place for good: [write] returns the output only
-       (every correspondence case writes once).
+     * comments and line structure of the cards (b3375c7, 3eacc4c, db7aff2: which comment goes where when a datum
+       changes block) — the harness has a comment oracle for pure placement changes.
+   [write] returns the output only: since 5239663 Importance._format_tree restores the classifiers it edits while
+   formatting, so a write leaves nothing behind in MontePy either (the harness writes in the middle of histories).
    Values are never computed with, only moved and compared for equality (math.isclose becomes equality).
-   Describes /repo at 77a14cf: with _unshare_tree (11534b6), LAT's _update_cell_values (929de16), new importance
+   Describes /repo at 5239663 (frozen): with _unshare_tree (11534b6), LAT's _update_cell_values (929de16), new importance
    trees labelled with their own particle (0e28d06), universe None -> jump (e7a2fbb), deleters that clear the value
    (277027d), no importance for particles outside MODE on cell cards (cba7f60).
    No proofs in this file. *)
